@@ -262,6 +262,7 @@ def run_am(ctx, case):
     if case['kind'] == 'J':
         j2 = case['j2']
         ctx.note(klass='J', desc=['J', j2], nontrivial=True)
+        ctx.fresh(lambda: list(ms.get_angular_momentum_op(j2)), 'get_angular_momentum_op: a second call is not affected by editing the arrays returned by the first')
         jx, jy, jz = [np.asarray(x, dtype=np.complex128) for x in ms.get_angular_momentum_op(j2)]
         rx, ry_, rz_ = spin_ops(j2)
         ctx.close(jx, rx, 1e-12, 'Jx = ladder formula')
@@ -275,6 +276,7 @@ def run_am(ctx, case):
         return
     a, b = case['j1'], case['j2']
     ctx.note(klass='CG', desc=['CG', a, b], nontrivial=True)
+    ctx.fresh(lambda: [c for _, c in ms.get_clebsch_gordan_coeffient(a, b)], 'get_clebsch_gordan_coeffient: a second call is not affected by editing the arrays returned by the first')
     cg = ms.get_clebsch_gordan_coeffient(a, b)
     js = [x[0] for x in cg]
     ctx.require(js == list(range(abs(a - b), a + b + 1, 2)), 'total spins |j1-j2|..j1+j2')
